@@ -15,6 +15,16 @@ import (
 // run it waits for its timer and asks for recovery (C08), and with a silent minority it may never decide (C09).
 func rulePhaseProgress(c *RC) *RuleResult {
 	r := &RuleResult{Rule: "M-PHASE-PROGRESS", Kind: "MUST", Doc: "each check function performs its step (send (Pre)Commit / process pre-block and send Commit / process block / enter the view) on every exit that is not excused by a missing transaction, a missing quorum or proposal, a failed callback or the node's own role"}
+	if dn := os.Getenv("DBFTLINT_DEBUG_EXITS"); dn != "" {
+		if f := c.Prog.fn(dn); f != nil {
+			for _, e := range c.exitsOf(f) {
+				fmt.Printf("EXIT %s trail={%s} log=%v\n", dn, strings.Join(e.Trail, " ; "), e.Log)
+			}
+			for _, s := range c.A.FnSites[f] {
+				fmt.Printf("SITE %s %s %s snaps=%d\n", dn, s.Kind, siteWhat(s), len(s.Snaps))
+			}
+		}
+	}
 	type phase struct {
 		name   string
 		fn     *FuncInfo
